@@ -35,8 +35,33 @@ def search(payload):
                     return {'found': True, 'input': ('var_write_int32 then var_read_int32', v, k), 'observed': repr(back), 'expected': repr(v), 'tried': tried}
             except Exception as ex:   # noqa
                 return {'found': True, 'input': ('int32', v, k), 'observed': f'raised {type(ex).__name__}: {ex}', 'expected': 'round trip', 'tried': tried}
+        # histories on ONE object: overlapping writes, the same value written again later (a write cache must not skip it)
+        import random
+        rnd = random.Random(payload.get('seed', 0))
+        for _ in range(150):
+            dev = EBB3Device()
+            dev.vars = list(range(100, 132))
+            e = obj_on(dev)
+            model = list(dev.vars)
+            hist = []
+            pool = [rnd.choice(vals) for _ in range(2)]
+            base = rnd.randint(0, 24)
+            for _ in range(rnd.randint(2, 5)):
+                v, k = rnd.choice(pool), base + rnd.choice([0, 0, 1, 2, 3, 4])
+                hist.append((v, k))
+                tried += 1
+                try:
+                    ok = e.var_write_int32(v, k)
+                    model[k:k + 4] = list(struct.pack('>i', v))
+                    back = e.var_read_int32(base)
+                except Exception as ex:   # noqa
+                    return {'found': True, 'input': ('int32 history', hist), 'observed': f'raised {type(ex).__name__}: {ex}', 'expected': 'round trip', 'tried': tried}
+                want = struct.unpack('>i', bytes(model[base:base + 4]))[0]
+                if ok is not True or dev.vars != model or back != want:
+                    return {'found': True, 'input': ('var_write_int32 history on one object (value, slot)', hist),
+                            'observed': f'{ok!r}, slots {dev.vars[base:base + 8]}, read back {back!r}', 'expected': f'True, slots {model[base:base + 8]}, read back {want}', 'tried': tried}
     elif what == 'nickname':
-        for s, prior in itertools.product(('bob', '  bob ', 'two words', '', '   ', 'a,b', 'East EBB 7'), (None, 'Old Name')):
+        for s, prior in itertools.product(('bob', '  bob ', 'two words', '', '   ', 'a,b', 'East EBB 7', 'Lab  A', 'Unit\t7', ' a   b  c '), (None, 'Old Name')):
             tried += 1
             dev = EBB3Device()
             e = obj_on(dev)
@@ -73,4 +98,22 @@ def search(payload):
                 return {'found': True, 'input': ('motors_enable', r1, r2, {'prior': (en1, en2, mode)}),
                         'observed': f'board en1={dev.en1} en2={dev.en2} mode={dev.mode}, reported {rep}',
                         'expected': f'en1={c1 != 0} en2={c2 != 0} mode={want_mode}', 'tried': tried}
+        # histories: three requests in a row on ONE object (a remembered resolution must not go stale)
+        for start in ((False, False, 1), (True, True, 3)):
+            for seq in itertools.product([(1, 1), (0, 2), (0, 1), (2, 0), (3, 3), (0, 0), (-3, 2)], repeat=3):
+                dev = EBB3Device()
+                dev.en1, dev.en2, dev.mode = start
+                e = obj_on(dev)
+                for j, (r1, r2) in enumerate(seq):
+                    tried += 1
+                    c1, c2 = max(0, min(5, r1)), max(0, min(5, r2))
+                    before_mode = dev.mode
+                    try:
+                        e.motors_enable(r1, r2)
+                    except Exception as ex:   # noqa
+                        return {'found': True, 'input': ('motors_enable history', seq[:j + 1], {'prior': start}), 'observed': f'raised {type(ex).__name__}: {ex}', 'expected': 'no exception', 'tried': tried}
+                    want_mode = (c1 if c1 else c2) if (c1 or c2) else before_mode
+                    if not ((dev.en1 == (c1 != 0)) and (dev.en2 == (c2 != 0)) and dev.mode == want_mode):
+                        return {'found': True, 'input': ('motors_enable history on one object', seq[:j + 1], {'prior': start}),
+                                'observed': f'board en1={dev.en1} en2={dev.en2} mode={dev.mode}', 'expected': f'en1={c1 != 0} en2={c2 != 0} mode={want_mode}', 'tried': tried}
     return {'found': False, 'tried': tried}
